@@ -76,11 +76,18 @@ def adaptive_windows_exact(c):
         elif den == 0:
             als.append(0); ars.append(a // 2)
         else:
-            g = decimal.Decimal(nom.numerator) / decimal.Decimal(nom.denominator) / (decimal.Decimal(den.numerator) / decimal.Decimal(den.denominator))
-            g = g ** decimal.Decimal(s)
-            al = g * a / (1 + g)
-            ar = decimal.Decimal(a) / (1 + g)
-            cl = lambda v: int(min(max(v, decimal.Decimal(1)), decimal.Decimal(a)))
+            ratio = nom / den
+            if float(s) == int(s):                      # integer smoothing: exact rational arithmetic
+                g = ratio ** int(s)
+                al = g * a / (1 + g)
+                ar = Fraction(a) / (1 + g)
+                cl = lambda v: int(min(max(v, Fraction(1)), Fraction(a)))
+            else:                                       # fractional smoothing: 60-digit decimals, snapped when within 1e-40 of an integer
+                gd = (decimal.Decimal(ratio.numerator) / decimal.Decimal(ratio.denominator)) ** decimal.Decimal(s)
+                snap = lambda v: (v.to_integral_value() if abs(v - v.to_integral_value()) < decimal.Decimal(10) ** -40 else v)
+                al = snap(gd * a / (1 + gd))
+                ar = snap(decimal.Decimal(a) / (1 + gd))
+                cl = lambda v: int(min(max(v, decimal.Decimal(1)), decimal.Decimal(a)))
             # float replica
             gf = (float(nom) / float(den)) ** s
             alf = int(min(max(gf * a / (1 + gf), 1), a))
